@@ -1721,3 +1721,178 @@ func (c *Ctx) r0915(pk *packages.Package) {
 	}
 	c.R.Floor(rule, "grammar positions with a constant level", n, 25)
 }
+
+// R01.26: the dangling-else guard and the printer agree on what "no else" means.
+func (c *Ctx) r0126(pk *packages.Package) {
+	const rule = "R01.26"
+	c.R.Rule(rule, "`if(a){if(b)c}else d` keeps its braces because without them the else would bind to the inner if. The printer (minifyStmt, case *js.IfStmt) decides with isEmptyStmt whether an if has an else worth printing — `else;` and `else{}` are dropped. js.endsInIf, which tells whether a body ends in an if without else, must judge the inner if by the same predicate: in its *js.IfStmt case the test for a missing else is isEmptyStmt(stmt.Else), not a comparison of stmt.Else with nil. Otherwise `if(a){if(b)return 1;else;}else return 2` loses its braces and the outer else is printed as the inner one")
+	info := pk.TypesInfo
+	// the printer's predicate
+	ms := c.fn(rule, pk, "jsMinifier.minifyStmt")
+	ei := c.fn(rule, pk, "endsInIf")
+	if ms == nil || ei == nil {
+		return
+	}
+	printerUses := false
+	ast.Inspect(ms.Body, func(x ast.Node) bool {
+		if ce, ok := x.(*ast.CallExpr); ok && strings.HasSuffix(calleeName(info, ce), "/js.isEmptyStmt") && len(ce.Args) == 1 && strings.HasSuffix(nospace(str(ce.Args[0])), ".Else") {
+			printerUses = true
+		}
+		return true
+	})
+	c.R.Check(printerUses, rule, "js.jsMinifier.minifyStmt/else printed unless isEmptyStmt", c.pos(ms), "the printer tests isEmptyStmt(stmt.Else)", "the printer no longer decides the presence of an else by isEmptyStmt(stmt.Else): the rule's reference predicate is gone")
+	n := 0
+	ast.Inspect(ei.Body, func(x ast.Node) bool {
+		cc, ok := x.(*ast.CaseClause)
+		if !ok || len(cc.List) != 1 || !strings.HasSuffix(nospace(str(cc.List[0])), "js.IfStmt") {
+			return true
+		}
+		ast.Inspect(cc, func(z ast.Node) bool {
+			ifs, ok := z.(*ast.IfStmt)
+			if !ok {
+				return true
+			}
+			cs := nospace(str(ifs.Cond))
+			if !strings.Contains(cs, ".Else") {
+				return true
+			}
+			n++
+			viaPred := false
+			ast.Inspect(ifs.Cond, func(w ast.Node) bool {
+				if ce, ok := w.(*ast.CallExpr); ok && strings.HasSuffix(calleeName(info, ce), "/js.isEmptyStmt") {
+					viaPred = true
+				}
+				return true
+			})
+			c.R.Check(viaPred, rule, fmt.Sprintf("js.endsInIf/case *js.IfStmt/missing else judged like the printer#%d", n), c.pos(ifs.Cond), "isEmptyStmt(stmt.Else)", "the inner if counts as having an else whenever stmt.Else is not nil, but the printer drops an empty else (`else;`, `else{}`): `if(a){if(b)return 1;else;}else return 2;return 3` → `if(a)if(b)return 1;else return 2;return 3`, where f(true,false) returns 2 instead of 3")
+			return true
+		})
+		return true
+	})
+	c.R.Floor(rule, "tests of the else branch in endsInIf", n, 1)
+}
+
+// R01.27: two strict comparisons fold into `x==null` only when they name both constants.
+func (c *Ctx) r0127(pk *packages.Package) {
+	const rule = "R01.27"
+	c.R.Rule(rule, "`x===null||x===undefined` is `x==null`; so is any pair in which one comparison is loose. But `x===null||x===null` is not: it is false for undefined. js.isUndefinedOrNullVar accepts a pair of comparisons of one variable with null/undefined; with both operators strict it may only succeed when the two constants differ. Stipulating that neither operator is the loose one (`left.Op == eqEqOp` and `right.Op == eqEqOp` false), every path to the successful return of the pair branch passes the true outcome of an inequality between two boolean values (which constant the left side names, which the right)")
+	info := pk.TypesInfo
+	fd := c.fn(rule, pk, "isUndefinedOrNullVar")
+	if fd == nil {
+		return
+	}
+	g := c.graph(pk, fd)
+	isBoolExpr := func(e ast.Expr) bool {
+		t := info.TypeOf(e)
+		if t == nil {
+			return false
+		}
+		bt, ok := t.Underlying().(*types.Basic)
+		return ok && bt.Info()&types.IsBoolean != 0
+	}
+	differ := func(q *flow.Node) bool {
+		if q.Of == nil || q.Of.Kind != flow.KCond {
+			return false
+		}
+		be, ok := ast.Unparen(q.Of.Expr).(*ast.BinaryExpr)
+		if !ok || !isBoolExpr(be.X) || !isBoolExpr(be.Y) {
+			return false
+		}
+		return be.Op == token.NEQ && q.Kind == flow.KTrue || be.Op == token.EQL && q.Kind == flow.KFalse
+	}
+	n := 0
+	for _, y := range g.Nodes {
+		rs := retStmt(y)
+		if rs == nil || len(rs.Results) != 3 || nospace(str(rs.Results[2])) != "true" {
+			continue
+		}
+		inPair := false
+		for _, f := range g.DomFacts(y) {
+			if f.Value && f.Test.Kind == flow.KCond {
+				if cs := nospace(str(f.Test.Expr)); strings.Contains(cs, "leftVar") && strings.Contains(cs, "rightVar") {
+					inPair = true
+				}
+			}
+		}
+		if !inPair {
+			continue
+		}
+		n++
+		y := y
+		p := g.Path(flow.Search{From: []*flow.Node{g.Entry}, IncludeFrom: true, Goal: func(q *flow.Node) bool { return q == y }, Avoid: differ,
+			AssumeRaw: map[string]bool{"left.Op == eqEqOp": false, "right.Op == eqEqOp": false, "eqEqOp == left.Op": false, "eqEqOp == right.Op": false}})
+		c.R.Check(p == nil, rule, fmt.Sprintf("js.isUndefinedOrNullVar/pair of strict comparisons#%d names both constants", n), c.pos(rs), "with both operators strict the two constants are required to differ", "two strict comparisons of one variable with null/undefined are accepted without asking whether they name the same constant: `a===null||a===null` → `a==null`, which is true for undefined where the source is false (and `a!==null&&a!==null` → `a!=null`)")
+	}
+	c.R.Floor(rule, "successful returns of the pair branch", n, 1)
+}
+
+// R01.28: a call of a builtin is replaced by operators only where that is an identity.
+func (c *Ctx) r0128(pk *packages.Package) {
+	const rule = "R01.28"
+	c.R.Rule(rule, "the printer replaces calls of global builtins by shorter operator expressions. That keeps the program's meaning only where the two agree for every argument: `Math.pow(a,b)` and `a**b` do; `Number(<literal>)` is folded for literals only. `Math.trunc(x)` → `x|0` does not (ToInt32: `Math.trunc(Date.now())` → a negative number, anything ≥ 2^31 wraps), `Math.abs(x)` → `x<0?-x:x` does not (-0, strings, objects: `Math.abs(\"-1\")` is 1, `\"-1\"<0?-\"-1\":\"-1\"` is 1 but `Math.abs(\"a\")` is NaN against \"a\"), `isNaN(x)` → `x!=x` does not (`isNaN(\"a\")` is true, `\"a\"!=\"a\"` false). In jsMinifier.minifyExpr, case *js.CallExpr, the names a callee is compared with — `bytes.Equal(v.Data, <name>Bytes)` for globals, `bytes.Equal(dot.Y.Data, []byte(\"<name>\"))` for methods of Math — are each judged: pow and Number are identities as used; a name not listed here is undecided")
+	info := pk.TypesInfo
+	fd := c.fn(rule, pk, "jsMinifier.minifyExpr")
+	if fd == nil {
+		return
+	}
+	verdict := map[string]string{
+		"Math.pow":   "",
+		"Number":     "",
+		"Math":       "", // the receiver test itself
+		"undefined":  "",
+		"Math.trunc": "`Math.trunc(x)` → `x|0` truncates to 32 bits: Math.trunc(1e10) is 10000000000, 1e10|0 is 1410065408",
+		"Math.abs":   "`Math.abs(x)` → `x<0?-x:x` differs for -0 (0 against -0), for strings and objects (Math.abs(\"a\") is NaN, the conditional yields \"a\")",
+		"isNaN":      "`isNaN(x)` → `x!=x` skips the ToNumber conversion: isNaN(\"a\") and isNaN(undefined) are true, \"a\"!=\"a\" and undefined!=undefined are false",
+	}
+	n := 0
+	ast.Inspect(fd.Body, func(x ast.Node) bool {
+		cc, ok := x.(*ast.CaseClause)
+		if !ok || len(cc.List) != 1 || !strings.HasSuffix(nospace(str(cc.List[0])), "js.CallExpr") {
+			return true
+		}
+		ast.Inspect(cc, func(z ast.Node) bool {
+			ce, ok := z.(*ast.CallExpr)
+			if !ok || calleeName(info, ce) != "bytes.Equal" || len(ce.Args) != 2 {
+				return true
+			}
+			lhs := nospace(str(ce.Args[0]))
+			name := ""
+			switch {
+			case strings.HasSuffix(lhs, "dot.Y.Data"):
+				if conv, ok := ast.Unparen(ce.Args[1]).(*ast.CallExpr); ok && len(conv.Args) == 1 {
+					if tv, ok := info.Types[conv.Args[0]]; ok && tv.Value != nil {
+						name = "Math." + constant.StringVal(tv.Value)
+					}
+				}
+			case strings.HasSuffix(lhs, "v.Data"):
+				if id, ok := ast.Unparen(ce.Args[1]).(*ast.Ident); ok {
+					if val, _, err := c.Ev.PackageVar(pk, id.Name); err == nil {
+						if b, ok := val.([]byte); ok {
+							name = string(b)
+						}
+					}
+				}
+			default:
+				return true
+			}
+			n++
+			if name == "" {
+				c.R.Unres(rule, fmt.Sprintf("js.jsMinifier.minifyExpr/case *js.CallExpr/callee compared with %s", nospace(str(ce.Args[1]))), c.pos(ce), "the name cannot be evaluated")
+				return true
+			}
+			why, known := verdict[name]
+			construct := "js.jsMinifier.minifyExpr/case *js.CallExpr/" + name + " replaced only by an identity"
+			switch {
+			case !known:
+				c.R.Unres(rule, construct, c.pos(ce), "a rewrite of calls of "+name+" that this rule has no verdict on: whether the replacement agrees with the builtin for every argument has to be judged and recorded here")
+			case why != "":
+				c.R.Bad(rule, construct, c.pos(ce), why)
+			default:
+				c.R.OK(rule, construct, c.pos(ce), "identity as used")
+			}
+			return true
+		})
+		return true
+	})
+	c.R.Floor(rule, "callee names compared in the CallExpr printer", n, 5)
+}
